@@ -127,7 +127,9 @@ def initial_world(kind, ts_of, issuer, op_script, init=None, extra=None,
     else:
         steps['op'] = op
         flow['op'] = []
+    op_schema['top'] = {}
     topology['op'] = {c: (c,) for c in CONTAINERS + (LEAF_CONTAINER,)}
+    topology['op']['top'] = ()
     if op2_script is not None:
         # a second operator, listed after the first: its updates of one
         # tick are applied after the first operator's
@@ -194,10 +196,10 @@ def op_update(op, kind='vars', ts=1):
             {'key': k + '0'}, {'key': k + '1'}]}}}
     if name == 'mov':
         _, c, k, d = op
-        return {c: {'_move': [{'source': (k,), 'target': d}]}}
+        return {c: {'_move': [{'source': (k,), 'target': move_target(k, d)}]}}
     if name == 'movupd':
         _, c, k, d = op
-        return {c: {'_move': [{'source': (k,), 'target': d,
+        return {c: {'_move': [{'source': (k,), 'target': move_target(k, d),
                                'update': {'v': 100}}]}}
     if name == 'pair':
         _, a, b = op
@@ -214,6 +216,13 @@ def op_update(op, kind='vars', ts=1):
                 out[c] = body
         return out
     raise ValueError(op)
+
+
+def move_target(key, dest):
+    """Both documented forms of a _move target: a port name, or a tuple
+    (port name, *path below it) - here the operator's port 'top', wired to
+    the root, extended by the container's name."""
+    return ('top', dest) if key[0] == 'b' else dest
 
 
 def op2_update(op, kind='vars', ts=1):
